@@ -21,5 +21,13 @@ func init() {
 		// built one; the maker then retransmits its stale NextMessage instead of opening_tx_broadcasted
 		directed{"in_sender", "btc", []string{"start", "otb", "in_agreement"}},
 		directed{"out_receiver", "lbtc", []string{"request", "otb", "paid_fee"}},
+		// the swap moves on although the action of the next state fails: the CSV has passed but the wallet cannot
+		// build / broadcast the refund (once, several times, for good); a coop_close whose spend fails
+		directed{"out_receiver", "btc", []string{"request", "paid_fee", "spend=fail1:csv"}},
+		directed{"out_receiver", "lbtc", []string{"request", "paid_fee", "spend=fail3:csv", "csv"}},
+		directed{"in_sender", "btc", []string{"start", "in_agreement", "spend=fail2:csv", "restart"}},
+		directed{"in_sender", "lbtc", []string{"start", "in_agreement", "spend=fail25:csv"}},
+		directed{"in_sender", "btc", []string{"start", "in_agreement", "spend=fail1:coop", "csv"}},
+		directed{"out_receiver", "btc", []string{"request", "paid_fee", "cancel", "spend=fail2:csv"}},
 	)
 }
